@@ -550,7 +550,15 @@ fn exec(
             Err(e) => fail(&mut r, &e),
         },
         "choose" => {
-            let i = op.get("i").and_then(|x| x.as_u64()).unwrap_or(0) as usize;
+            let mut i = op.get("i").and_then(|x| x.as_u64()).unwrap_or(0) as usize;
+            if op.get("mod").and_then(|x| x.as_bool()).unwrap_or(false) {
+                // random walks: the index is taken modulo the number of choices on offer and reported
+                let n = st.get_current_choices().len();
+                if n > 0 {
+                    i %= n;
+                }
+                r.insert("chosen".into(), json!(i));
+            }
             unit!(st.choose_choice_index(i))
         }
         "choose_path" => {
@@ -940,6 +948,19 @@ fn explore(
                 queue.push_back(q);
             }
         }
+    }
+    // explicit (deep) paths, e.g. found by a random walk: emitted whole
+    for p in ex.get("extra_paths").and_then(|x| x.as_array()).cloned().unwrap_or_default() {
+        let p: Vec<usize> = p.as_array().map(|a| a.iter().filter_map(|x| x.as_u64()).map(|x| x as usize).collect()).unwrap_or_default();
+        let mut script: Vec<J> = vec![json!({"op":"new"})];
+        script.extend(prelude.iter().cloned());
+        script.push(json!({"op":"turn"}));
+        for c in &p {
+            script.push(json!({"op":"choose","i":c}));
+            script.push(json!({"op":"turn"}));
+        }
+        let (nch, faulted) = run_script(&case, json!({"walk": p}), &script, 0, progs, seed, fuel, cfg, out);
+        writeln!(out, "{}", json!({"case": case, "path": {"walk": p}, "n": -4, "op": "path_end", "choices": nch, "faulted": faulted})).unwrap();
     }
 }
 
